@@ -160,6 +160,7 @@ type PathResult struct {
 	Status     string // done, assume-false, cut, step-budget, blocked, panic
 	Steps      int64
 	InitSteps  int64
+	Chooses    int
 	Decisions  int
 	Violations []*Violation
 	Reached    []string
@@ -387,6 +388,7 @@ func (ex *pathExec) chooseN(what string, n int) int {
 		}
 		return 0
 	}
+	ex.res.Chooses++
 	if ex.pos < len(ex.prefix) {
 		e := ex.prefix[ex.pos]
 		if e.kind != tkChoose {
@@ -616,6 +618,7 @@ type Report struct {
 	Paths          int
 	PathsByStatus  map[string]int
 	Decisions      int
+	Chooses        int
 	Steps          int64
 	Obligations    int
 	OblsSolver     int
@@ -713,6 +716,7 @@ func (e *Explorer) Run() *Report {
 					rep.Paths++
 					rep.PathsByStatus[res.Status]++
 					rep.Decisions += res.Decisions
+					rep.Chooses += res.Chooses
 					rep.Steps += res.Steps
 					rep.Obligations += res.Obls
 					rep.OblsSolver += res.OblsSolver
